@@ -2,7 +2,7 @@
 
 package main
 
-func init() { jobs = append(jobs, genConsts) }
+func init() { jobs = append(jobs, job{props: []string{"C01"}, fn: genConsts}) }
 
 // genConsts emits integer constants the model's arithmetic and windows use.
 func genConsts() {
